@@ -28,14 +28,34 @@ class Result:
 _feas_cache = {}
 
 
-def feasible(assumptions, timeout_ms=4000):
-    """Quick satisfiability test used for path pruning.  'unknown' counts as feasible."""
+def _has_quantifier(e, seen=None):
+    seen = seen if seen is not None else set()
+    if z3.is_quantifier(e):
+        return True
+    k = e.get_id()
+    if k in seen:
+        return False
+    seen.add(k)
+    return any(_has_quantifier(c, seen) for c in e.children())
+
+
+def feasible(assumptions, timeout_ms=3000):
+    """Quick satisfiability test used for path pruning.  'unknown' counts as feasible.
+    The quantifier-free part is tried first (an unsatisfiable subset settles it)."""
+    qf = [a for a in assumptions if not _has_quantifier(a)]
     s = z3.Solver()
     s.set("timeout", timeout_ms)
+    for a in qf:
+        s.add(a)
+    if s.check() == z3.unsat:
+        return False
+    if len(qf) == len(assumptions):
+        return True
+    s = z3.Solver()
+    s.set("timeout", min(timeout_ms, 1500))
     for a in assumptions:
         s.add(a)
-    r = s.check()
-    return r != z3.unsat
+    return s.check() != z3.unsat
 
 
 def to_smt2(hyps, goal):
@@ -62,17 +82,6 @@ def _run_external(cmd, smt2, timeout_s):
         return "unknown", timeout_s * 1000
     finally:
         os.unlink(path)
-
-
-def _has_quantifier(e, seen=None):
-    seen = seen if seen is not None else set()
-    if z3.is_quantifier(e):
-        return True
-    k = e.get_id()
-    if k in seen:
-        return False
-    seen.add(k)
-    return any(_has_quantifier(c, seen) for c in e.children())
 
 
 def _z3_check(hyps, goal, timeout_ms):
